@@ -105,7 +105,7 @@ func (fc *FnCtx) Generate() (err error) {
 		v := fc.evalExpr(g.Init, env0)
 		fc.ghost[g.Name] = v.T
 		fc.ghost0[g.Name] = v.T
-		fc.ghostSort[g.Name] = g.Sort
+		fc.ghostSort[g.Name] = smtSortName(g.Sort)
 	}
 	// lock ghost state
 	fc.ghostSort["held"] = arrSort(sBool)
@@ -115,6 +115,15 @@ func (fc *FnCtx) Generate() (err error) {
 	// lemmas this function relies on (each proved separately by its own obligations)
 	for _, u := range strings.Fields(fc.con.Opts["uses"]) {
 		fc.assume(fc.eng.lemmaFormula(fc, u))
+	}
+	// global facts (assumed; listed in the trusted base)
+	for _, f := range fc.eng.cs.Facts {
+		func() {
+			defer func() { recover() }()
+			t := fc.evalBool(f.E, env0)
+			fc.assume(t)
+			fc.trusted["global fact (assumed): "+f.Text] = true
+		}()
 	}
 	// preconditions
 	for _, r := range fc.con.Requires {
@@ -130,6 +139,11 @@ func (fc *FnCtx) Generate() (err error) {
 
 	for _, b := range fc.order {
 		fc.processBlock(b)
+	}
+	// vacuity: some exit of the function must be reachable under all the assumptions made (no contradiction)
+	if len(fc.retReach) > 0 {
+		fc.obls = append(fc.obls, &Obligation{Name: fc.name + "/vacuity:exit#1", Fn: fc.name, Kind: "vacuity", Props: fc.props,
+			Goal: not(or(fc.retReach...)), NAssume: len(fc.assumes), fc: fc, Expect: "sat", Text: "some return is reachable under all assumptions (no contradiction)"})
 	}
 	return nil
 }
@@ -640,7 +654,7 @@ func (fc *FnCtx) enterLoop(li *loopInfo) {
 	fc.heap = h
 	g := map[string]string{}
 	for name, t := range fc.ghost {
-		if li.modAll || li.modRegs["ghost."+name] {
+		if li.modRegs["ghost."+name] {
 			c := qsym(fmt.Sprintf("ghost.%s@loop%d", name, ord))
 			fc.declare(c, fc.ghostSort[name])
 			g[name] = c
@@ -721,7 +735,10 @@ func (fc *FnCtx) closeLoop(li *loopInfo, latch *ssa.BasicBlock) {
 }
 
 func (fc *FnCtx) immutableRegion(r string) bool {
-	return strings.HasPrefix(r, "K.")
+	if strings.HasPrefix(r, "K.") {
+		return true
+	}
+	return fc.eng.immutableFieldRegion(r)
 }
 
 // computeLoopMods: syntactic over-approximation of the regions a loop body may modify.
